@@ -6,6 +6,7 @@ import DracoProofs.EbIsoCheck
 import DracoProofs.EbCoverage
 import DracoProofs.EbConnExample
 import DracoProofs.EbCountsRun
+import DracoProofs.EbCountsStream
 /-
   C09 for Edgebreaker, on the CORNER-TABLE models (DracoModel/EbConnectivity.lean `assignPoints`,
   DracoModel/EbEncoder.lean `computeNumberOfEncodedPoints`): closes, on the decoder's side, the gap of DracoProps/C09.lean
@@ -356,6 +357,43 @@ example : (3 : Nat) = 3 :=
     (by decide +kernel)
 
 end TriExample
+
+open Draco.EbEnc.CountsIso Draco.EbEnc.EncCounts Draco.EbEnc.AttViews in
+/-- **C09 at the level of the REPORTED counts, position-only geometries**: `enc.numEncodedPoints` / `enc.numEncodedFaces`
+    (what `encodeEdgebreaker` reports) equal `mesh.numPoints` / `mesh.numFaces` of a mesh `decodeConnectivity` returned
+    (`hst : DecStagesOf mesh co` — the decoder's stages, obtained by inversion from any successful `decodeConnectivity`:
+    `Eb.decodeConnectivity_stages_runs`), given the connectivity link (`hn`, `hiso`) and the decoder-side table facts
+    (`hdec`, `hhole`, `hconnV`).  The multi-attribute form is `CountsIso.eb_encoded_counts_of_link` (DracoProofs/EbCountsStream.lean);
+    its seam hypothesis compares attribute tables index by index, which fits only when every attribute data has an interior
+    seam (the encoder counts on the tables of the controllers that encode on their attribute table, the decoder on all). -/
+theorem eb_encoded_counts_of_link_single {ch : EbChoices} {g : Geometry} {md : Option GeometryMetadata} {o : EbOpts}
+    {enc : Encoded} (henc : encodeEdgebreaker ch g md o = .ok enc)
+    {mesh : Mesh} {co : ConnOut} (hst : DecStagesOf mesh co) (ψ : Nat → Nat)
+    (hatts : g.atts.length ≤ 1)
+    (hne : mesh.atts.isEmpty = true)
+    (hn : mesh.numFaces = enc.conn.processed.size)
+    (hiso : TVIso (baseViewD mesh.numFaces co.c2v co.opp co.vc) enc.conn.ct.view (phi enc.conn.processed) ψ)
+    (hdec : APHyp mesh.numFaces co)
+    (hhole : ∀ v, v < co.vc.size → co.vc[v]! ≠ inv → co.hole[v]! = true → ∃ k, iter (sRP co.opp) k co.vc[v]! = inv)
+    (hconnV : co.numConnVerts = (usedVerts co.vc).length) :
+    enc.numEncodedPoints = mesh.numPoints ∧ enc.numEncodedFaces = mesh.numFaces :=
+  CountsIso.eb_encoded_counts_of_link_single henc hst ψ hatts hne hn hiso hdec hhole hconnV
+
+open Draco.EbEnc.CountsIso Draco.EbEnc.EncCounts Draco.EbEnc.AttViews Draco.EbEnc.ConnExample in
+/-- non-vacuity: the one-triangle stream of DracoProofs/EbConnExample.lean: the encoder reports 3 points and 1 face, the
+    decoded mesh `exMesh` (`exConnLink`) has 3 points and 1 face -/
+example : exEnc.numEncodedPoints = ConnExample.exMesh.numPoints ∧ exEnc.numEncodedFaces = ConnExample.exMesh.numFaces :=
+  eb_encoded_counts_of_link_single exEncode (mesh := ConnExample.exMesh) (co := exCo)
+    ⟨⟨1, 3, 1, [], true⟩, exTrav [], #[], 0, exConn [], rfl, rfl, rfl, rfl, by simp [pure, Except.pure, ConnExample.exMesh],
+      exAssignPts⟩
+    (fun v => (#[0, 1, 2] : Array Nat)[v]!) (by decide) (by decide) (by decide +kernel)
+    (tvIsoCheck_sound _ _ _ #[0, 1, 2] #[0, 1, 2] #[0, 1, 2] (by decide +kernel)) triAPHyp
+    (by
+      intro v hv _ _
+      have hv' : v < 3 := hv
+      obtain rfl | rfl | rfl : v = 0 ∨ v = 1 ∨ v = 2 := by omega
+      all_goals exact ⟨1, by decide +kernel⟩)
+    (by decide +kernel)
 
 open Draco.EbEnc.EncCounts in
 /-- **C09, faces, Edgebreaker (encoder side), unconditional.**  After a successful `encodeEdgebreaker` the reported
